@@ -17,6 +17,13 @@ def _mk(kind):
         from gemseo.caches.simple_cache import SimpleCache
 
         return SimpleCache()
+    if kind == "HDF5Cache":
+        import tempfile
+        from pathlib import Path
+
+        from gemseo.caches.hdf5_cache import HDF5Cache
+
+        return HDF5Cache(hdf_file_path=Path(tempfile.mkdtemp(prefix="rt_c05_")) / "cache.h5", hdf_node_path="node")
     from gemseo.caches.memory_full_cache import MemoryFullCache
 
     return MemoryFullCache(is_memory_shared=(kind == "MemoryFullCache[shared]"))
@@ -76,6 +83,9 @@ class Ref:
         e = self._find(i)
         return (e[1], e[2]) if e else ({}, {})
 
+    def clear(self):
+        self.entries = []
+
 
 INPUTS = [lambda: {"x": np.array([1.0]), "y": np.array([2.0, 3.0])}, lambda: {"x": np.array([1.0]), "y": np.array([2.0, 4.0])},
           lambda: {"x": np.array([5.0]), "y": np.array([2.0, 3.0])}]
@@ -83,7 +93,7 @@ OUTS = [lambda: {"f": np.array([10.0])}, lambda: {"f": np.array([20.0])}]
 JACS = [lambda: {"f": {"x": np.array([[1.0]]), "y": np.array([[2.0, 3.0]])}}, lambda: {"f": {"x": np.array([[7.0]]), "y": np.array([[8.0, 9.0]])}}]
 
 OPS = [("cache_outputs", a, b) for a in range(3) for b in range(2)] + [("cache_jacobian", a, b) for a in range(3) for b in range(2)] + \
-      [("mutate_inputs", 0, 0), ("mutate_outputs", 0, 0), ("mutate_jacobian", 0, 0)]
+      [("mutate_inputs", 0, 0), ("mutate_outputs", 0, 0), ("mutate_jacobian", 0, 0), ("clear", 0, 0)]
 
 
 def sequences(max_len=3):
@@ -109,6 +119,9 @@ def run(kind, seq):
             passed["j"].append(j)
             cache.cache_jacobian(i, j)
             ref.cache_jacobian(i, j)
+        elif op == "clear":
+            cache.clear()
+            ref.clear()
         else:
             which = {"mutate_inputs": "i", "mutate_outputs": "o", "mutate_jacobian": "j"}[op]
             for d in passed[which]:
@@ -132,6 +145,8 @@ def run(kind, seq):
 
 
 def kinds_for(func: str):
+    if "hdf5_cache" in func or "_hdf5_file_singleton" in func:
+        return ["HDF5Cache"]
     if "simple_cache" in func:
         return ["SimpleCache"]
     if "full_cache" in func:
@@ -143,13 +158,15 @@ def kinds_for(func: str):
 
 def replay(ob, seed=0):
     want = None
-    for name in ("cache_outputs", "cache_jacobian"):
-        if name in ob.func:
+    for name in ("cache_outputs", "cache_jacobian", "clear"):
+        if ob.func.endswith("." + name):
             want = name
     for kind in kinds_for(ob.func):
-        for idx, seq in enumerate(sequences()):
+        for idx, seq in enumerate(sequences(2 if kind == "HDF5Cache" else 3)):  # (file-based: every operation opens the file)
             if want and not any(OPS[i][0] == want for i in seq):
                 continue
+            if want != "clear" and any(OPS[i][0] == "clear" for i in seq):
+                continue  # (clear is only exercised for the obligations of clear: HDF5Cache.clear on an empty node is a known finding)
             try:
                 r = run(kind, seq)
             except Exception as e:  # noqa: BLE001
